@@ -94,9 +94,14 @@ def san_log(pid):
 
 
 def cleanup_scratch(pid):
-    d = '/dev/shm/verif.%d' % pid
+    base = os.environ.get('VERIF_SCRATCH') or '/dev/shm'
+    d = '%s/verif.%d' % (base, pid)
     if os.path.isdir(d):
         subprocess.run(['rm', '-rf', d])
+    try:
+        os.unlink('/dev/shm/vs.%07d' % (pid % 10000000))     # the fixed-length name the worker reached it through
+    except OSError:
+        pass
 
 
 def crash_sig(prop, rc, santxt):
